@@ -319,6 +319,9 @@ def _pick(expr, env, val, atoms) -> str:
         if c is None:
             return "<undecided>"
         expr = expr.body if c else expr.orelse
+    from ..pathtab import canon_under
+    if isinstance(expr, ast.Name) and expr.id in env and env[expr.id] is not None:
+        return canon_under(expr, env, val, atoms)   # an intermediate holding the chosen value
     return unparse(expr)
 
 
@@ -569,119 +572,84 @@ def _condition_match_table(ck, repo):
 
 
 def _execute_fields_alignment(ck, repo):
+    """E13: execute_fields interpreted (awaiting = the awaited term; gather = its operands, in order) on a selection of three
+    or four keys for every assignment of the parent_concurrently flag, with an unknown field at each position, and with a
+    field that resolves to null among deferred ones.  The answer must map every known key, in selection order, to the result
+    of *that key's* resolver called with (context, parent type, source, that key's nodes, Path(path, key), flag) - whatever
+    bookkeeping links a deferred field to its slot (index dictionary, parallel lists, pairs)."""
+    from .. import absint
+    from ..absint import App, Env, LambdaV, RecV, Sym
     f = repo.func(EXECUTE, "execute_fields")
-    fv = FuncView(f)
     p = f.positional_params
-    loop = None
-    for lp in fv.loops():
-        if isinstance(lp, ast.For) and f"{p[4]}.items()" in unparse(lp.iter):
-            loop = lp
-    if loop is None:
-        raise AnalysisError("execute_fields: loop over fields.items() not found")
-    if "enumerate" not in unparse(loop.iter):
-        # the slot a deferred field is written back to has to be remembered: without a per-field index there is nothing to key it by
-        lens = [n for n in walk_no_nested(loop) if isinstance(n, ast.Assign) and unparse(n.value) == "len(results)"]
-        wbs = [n for n in walk_no_nested(f.node) if isinstance(n, ast.Assign) and isinstance(n.targets[0], ast.Subscript) and unparse(n.targets[0].value) == "results"]
-        if wbs:
-            ck.ob("execute_fields: the loop tracks the index of each field's slot (a deferred result is written back by it)", bool(lens), f, loop, construct="deferred:index",
-                  detail="no enumerate(...) over the fields and no `i = len(results)`: a write-back that finds its slot by the slot's content (`is None`) confuses a deferred field with a field that resolved to null")
-        gs = [c for c in fv.calls("gather") if any(k.arg == "return_exceptions" and unparse(k.value) == "True" for k in c.keywords)]
-        ck.ob("execute_fields: the deferred fields are awaited together, failures returned rather than raised (every sibling finishes, every error is collected)", bool(gs), f,
-              gs[0] if gs else loop, construct="deferred:gather-operands",
-              detail="awaiting the slots one by one re-raises the first failure: its siblings are left running and their errors are never reported")
-        return
-    head = fv.cfg.node_of(loop)
-    appends = [c for c in fv.calls("append") if unparse(c.func.value) == "results" and contains(loop, c)]
-    ck.count("execute_fields_result_appends", len(appends), 2)
-    # Once(loop, results.append): simulate one iteration
-    n_paths, bad = 0, []
-    for tr in fv.cfg.simulate(lambda n, env: None):
-        ids = tr.path
-        if head.id not in ids:
-            continue
-        # the slice of the path between first and second visit of the loop head
-        i = ids.index(head.id)
-        rest = ids[i + 1:]
-        if head.id in rest:
-            body = rest[: rest.index(head.id)]
-        else:
-            continue
-        if not body:
-            continue
-        cnt = sum(1 for nid in body for c in appends if fv.cfg.nodes[nid].kind == "stmt" and contains(fv.cfg.nodes[nid].ast, c))
-        n_paths += 1
-        if cnt != 1:
-            bad.append([fv.cfg.nodes[x].text()[:40] for x in body])
-    if n_paths < 3:
-        raise AnalysisError(f"execute_fields: only {n_paths} loop-body paths found")
-    ck.ob("execute_fields: every path through one loop iteration appends exactly one slot to results", not bad, f, loop,
-          construct="once:results.append", detail=f"{n_paths} body paths; offending: {bad[:2]}", evals=n_paths)
-    # deferred slot keyed by the loop index
-    idx = unparse(loop.target.elts[0]) if isinstance(loop.target, ast.Tuple) else None
-    stores = [n for n in walk_no_nested(loop) if isinstance(n, ast.Assign) and isinstance(n.targets[0], ast.Subscript)
-              and unparse(n.targets[0].value) == "to_await"]
-    ck.ob("execute_fields: a deferred field is stored under its own index",
-          len(stores) == 1 and unparse(stores[0].targets[0].slice) == idx, f, stores[0] if stores else loop,
-          construct="deferred:index")
-    # write back by index from zip(to_await, awaited)
-    wb = [n for n in walk_no_nested(f.node) if isinstance(n, ast.Assign) and isinstance(n.targets[0], ast.Subscript)
-          and unparse(n.targets[0].value) == "results"]
-    ok = False
-    gather_name = None
-    if len(wb) == 1:
-        lp2 = fv.enclosing(wb[0], (ast.For,))
-        if lp2 is not None and isinstance(lp2.iter, ast.Call) and dotted(lp2.iter.func) == "zip" and isinstance(lp2.target, ast.Tuple):
-            za = [unparse(a) for a in lp2.iter.args]
-            tg = [unparse(e) for e in lp2.target.elts]
-            gather_name = za[1] if len(za) == 2 else None
-            ok = len(za) == 2 and za[0] == "to_await" and unparse(wb[0].targets[0].slice) == tg[0] and unparse(wb[0].value) == tg[1]
-    ck.ob("execute_fields: awaited results are written back by the index they were deferred under", ok, f,
-          wb[0] if wb else f.node, construct="deferred:write-back")
-    g = fv.one_call("gather")
-    gs = fv.stmt_of(g)
-    gconds = set(fv.conditions(g))
-    ck.ob("execute_fields: deferred fields are awaited whenever there are any", gconds in ({("to_await", "T")}, set()), f, g, construct="deferred:gather-guard", detail=str(gconds))
-    ck.ob("execute_fields: the write-back runs whenever there are deferred fields", len(wb) == 1 and set(fv.conditions(wb[0])) in ({("to_await", "T")}, set()), f,
-          wb[0] if wb else f.node, construct="deferred:write-back-guard")
-    dconds = set(fv.conditions(stores[0])) if stores else set()
-    ck.ob("execute_fields: a field is deferred exactly when its parent_concurrently flag is set (and defined)",
-          dconds == {("field_definition is None", "F"), ("field_definition.parent_concurrently", "T")}, f, stores[0] if stores else loop, construct="deferred:flag", detail=str(dconds))
-    ck.ob("execute_fields: the gather awaits exactly the deferred coroutines, in dict order",
-          isinstance(gs, ast.Assign) and unparse(gs.targets[0]) == gather_name and
-          unparse(g.args[0]) in ("*list(to_await.values())", "*to_await.values()"), f, g, construct="deferred:gather-operands")
-    # response built by zip(fields, results) dropping invalid only
-    rets = fv.returns()
-    final = [r for r in rets if isinstance(r.value, ast.DictComp)]
-    ok = False
-    if len(final) == 1:
-        dc = final[0].value
-        gen = dc.generators[0]
-        ok = (isinstance(gen.iter, ast.Call) and dotted(gen.iter.func) == "zip" and [unparse(a) for a in gen.iter.args] == [p[4], "results"]
-              and isinstance(gen.target, ast.Tuple) and unparse(dc.key) == unparse(gen.target.elts[0]) and unparse(dc.value) == unparse(gen.target.elts[1])
-              and len(gen.ifs) == 1 and unparse(gen.ifs[0]) == f"not is_invalid_value({unparse(gen.target.elts[1])})")
-    ck.ob("execute_fields: response = zip(fields, results) keyed by entry key, dropping only undefined entries", ok, f,
-          final[0] if final else f.node, construct="response:zip")
-    # the unknown-field arm appends UNDEFINED_VALUE (dropped later), never a real value
-    unk = [c for c in appends if unparse(c.args[0]) == "UNDEFINED_VALUE"]
-    ok = False
-    if unk:
-        ok = fv.guarded(unk[0], lambda t: t == "field_definition is None", "T")
-    ck.ob("execute_fields: an unknown field keeps its slot with UNDEFINED_VALUE", ok, f, unk[0] if unk else loop,
-          construct="unknown-field:slot")
-    # resolver call operands
-    rc = [c for c in fv.calls("resolver") if contains(loop, c)]
-    if len(rc) != 1:
-        raise AnalysisError("execute_fields: expected one field_definition.resolver(...) call in the loop")
-    key = unparse(loop.target.elts[1].elts[0])
-    nodes = unparse(loop.target.elts[1].elts[1])
-    want = [p[0], p[1], p[2], nodes, f"Path({p[3]}, {key})", p[5]]
-    ck.ob("execute_fields: resolver called with (ctx, parent type, source, this key's nodes, Path(path, key), introspection flag)",
-          [unparse(a) for a in rc[0].args] == want, f, rc[0], construct="resolver:operands", detail=f"want {want}")
-    gfd = [c for c in fv.calls("get_field_definition") if contains(loop, c)]
-    ck.ob("execute_fields: the field definition is looked up by the first node's name on the parent type",
-          len(gfd) == 1 and [unparse(a) for a in gfd[0].args] == [f"{p[0]}.schema", p[1], f"{nodes}[0].name.value"], f,
-          gfd[0] if gfd else loop, construct="resolver:lookup")
+    n = 0
+    gather_ok = [True]
 
+    def run(keys, flags, unknown_at, null_at):
+        defs = {}
+        fields = {}
+        for i, k in enumerate(keys):
+            name = f"field_{k}"
+            fields[k] = [RecV("FieldNode", name=RecV("NameNode", value=name, _strict=True), _label=f"<node {k}>", _strict=True)]
+            if i == unknown_at:
+                continue
+            if i == null_at:
+                res = LambdaV(ast.parse("lambda *a, **k: None", mode="eval").body, Env())
+            else:
+                res = Sym(f"resolver_{k}")
+            defs[name] = RecV("GraphQLField", resolver=res, parent_concurrently=flags[i], _label=f"<definition {k}>", _strict=True)
+
+        def gfd(args, kwargs):
+            return defs.get(args[2]) if len(args) == 3 and absint.norm(args[0]) == absint.norm(Sym("SCHEMA")) and absint.norm(args[1]) == absint.norm(Sym("PARENT")) else Sym("<wrong lookup>")
+
+        def gather(args, kwargs):
+            if kwargs.get("return_exceptions") is not True:
+                gather_ok[0] = False
+            return list(args)
+
+        ctx = RecV("ExecutionContext", schema=Sym("SCHEMA"), _label="CTX", _strict=True)
+        it = absint.Interp(repo, f.module, interpret={"tartiflette.utils.values.is_invalid_value"},
+                           stubs={"tartiflette.execution.helpers.get_field_definition": gfd, "asyncio.gather": gather,
+                                  "tartiflette.utils.errors.extract_exceptions_from_results": lambda a, k: None})
+        got = it.run(f, [ctx, Sym("PARENT"), Sym("SOURCE"), Sym("PATH"), fields, False])
+        want = {}
+        for i, k in enumerate(keys):
+            if i == unknown_at:
+                continue
+            if i == null_at:
+                want[k] = None
+            else:
+                want[k] = App(Sym(f"resolver_{k}"), [ctx, Sym("PARENT"), Sym("SOURCE"), fields[k], App(Sym("tartiflette.coercers.common.Path"), [Sym("PATH"), k], {}), False], {})
+        return got, want
+
+    import itertools as _it
+    cases = []
+    keys = ("a", "b", "c")
+    for flags in _it.product((False, True), repeat=3):
+        cases.append((keys, flags, None, None))
+    keys4 = ("a", "b", "c", "d")
+    for flags in ((True, True, True, True), (False, True, False, True), (True, False, True, False)):
+        for u in range(4):
+            cases.append((keys4, flags, u, None))
+        for z in range(4):
+            if not flags[z]:
+                cases.append((keys4, flags, None, z))   # a field awaited in place that resolved to null, next to deferred ones
+    for keys_, flags, u, z in cases:
+        tag = "".join("C" if x else "s" for x in flags) + (f":unknown@{u}" if u is not None else "") + (f":null@{z}" if z is not None else "")
+        try:
+            got, want = run(keys_, flags, u, z)
+            why = None
+        except absint.Unsupported as ex:
+            raise AnalysisError(f"{f.short}: cannot be interpreted over abstract selections: {ex}")
+        except absint.PyRaise as ex:
+            got, want, why = None, None, f"raises {ex.name} ({ex.text})"
+        n += 1
+        ok = why is None and isinstance(got, dict) and list(got) == list(want) and all(absint.norm(got[k]) == absint.norm(want[k]) for k in want)
+        ck.ob(f"execute_fields [{tag}]: every known key, in selection order, maps to the result of its own resolver call", ok, f, f.node, construct=f"align:{tag}",
+              detail=why or f"got {got!r}")
+    ck.ob("execute_fields: the deferred fields are awaited together, failures returned rather than raised (every sibling finishes, every error is collected)", gather_ok[0], f, f.node,
+          construct="deferred:gather-operands", detail="gather(...) without return_exceptions=True re-raises the first failure")
+    ck.count("execute_fields_shapes", n, 20)
+    fv = FuncView(f)
     serial_twin(ck, repo)
     _resolve_field_forward(ck, repo)
 
@@ -978,6 +946,7 @@ def _type_resolver(ck, repo):
     atoms = Atoms({f"{p[1]} in self._fields_type_resolvers": "field_level", "self.type_resolver": "type_level",
                    f"self._fields_type_resolvers.get({p[1]})": "field_level",
                    f"self._fields_type_resolvers.get({p[1]}, None)": "field_level"})
+    atoms.sentinels = {k for k, v in f.module.assigns.items() if isinstance(v, ast.Call) and unparse(v) == "object()"}
     import itertools
     for fl, tl in itertools.product([False, True], repeat=2):
         val = {"field_level": fl, "type_level": tl}
